@@ -137,18 +137,120 @@ ALIGN_BLOCK = '''
 '''
 
 
+
+VARINTS = [('u16', 3), ('u32', 5), ('u64', 10), ('u128', 19), ('i16', 3), ('i32', 5), ('i64', 10), ('i128', 19)]
+
+
+def _varint_shims():
+    out = []
+    for ty, mx in VARINTS:
+        out.append('''
+/// LEB128 image of a value (const_varint, a dependency: trusted).  Only its length bounds are assumed.
+pub uninterp spec fn spec_venc_%(ty)s(v: %(ty)s) -> Seq<u8>;
+#[verifier::external_body]
+pub broadcast proof fn axiom_venc_len_%(ty)s(v: %(ty)s)
+  ensures 1 <= (#[trigger] spec_venc_%(ty)s(v)).len() <= %(mx)d
+{}
+impl Buf {
+  /// `const_varint::encode_%(ty)s_varint_to(value, buf)` with `buf` a window of this handle: writes the image at the start of
+  /// the window or fails (window too short); touches nothing outside the window
+  #[verifier::external_body]
+  pub fn buf_encode_varint_%(ty)s(&mut self, value: %(ty)s, w: Win) -> (r: Result<usize, EncodeErr>)
+    requires
+      0 <= w.n@, w.n@ > 0 ==> old(self).off() <= w.lo@ && w.lo@ + w.n@ <= old(self).off() + old(self).cap(), // [C14]
+      old(self).off() + old(self).cap() <= old(self).mem@.len(),
+    ensures
+      same_handle(*old(self), *final(self)), final(self).len == old(self).len,
+      final(self).only_touched(*old(self), w.lo@ - old(self).off(), w.lo@ + w.n@ - old(self).off()),
+      r is Err <==> spec_venc_%(ty)s(value).len() > w.n@,
+      r matches Ok(n) ==> n as int == spec_venc_%(ty)s(value).len()
+        && final(self).mem@.subrange(w.lo@, w.lo@ + n as int) == spec_venc_%(ty)s(value),
+  { unimplemented!() }
+}
+/// `const_varint::decode_%(ty)s_varint(buf)`: reads only `buf`; inverse of the encoder on every buffer that starts with an image
+#[verifier::external_body]
+pub fn decode_varint_%(ty)s(buf: &[u8]) -> (r: Result<(usize, %(ty)s), DecodeErr>)
+  ensures
+    r matches Ok(p) ==> 1 <= p.0 <= buf@.len(),
+    forall|v: %(ty)s| (#[trigger] spec_venc_%(ty)s(v)).len() <= buf@.len() && buf@.subrange(0, spec_venc_%(ty)s(v).len() as int) == spec_venc_%(ty)s(v)
+      ==> r == Ok::<(usize, %(ty)s), DecodeErr>((spec_venc_%(ty)s(v).len() as usize, v)),
+{ unimplemented!() }
+''' % dict(ty=ty, mx=mx))
+    return ''.join(out)
+
+
+def _varint_block(scope, sfx, ty):
+    d = dict(scope=scope, sfx=sfx, ty=ty, nullreq=('old(self).null_arena ==> old(self).cap() == 0, ' if sfx else ''), nullreq_ro=('self.null_arena ==> self.cap() == 0, ' if sfx else ''))
+    return '''
+//@@fn file=bytes.rs src=expanded scope="%(scope)s" name=put_%(ty)s_varint rename=put_%(ty)s_varint%(sfx)s xlate=plain props=C14
+//@subst /dbutils::error::InsufficientBuffer/ => InsufficientBuffer
+//@subst /let buf = unsafe \\{\\s*core::slice::from_raw_parts_mut\\(self\\.as_mut_ptr\\(\\)\\.add\\((.+?)\\), (.+?)\\)\\s*\\}\\s*;/ => let p__ = self.as_mut_ptr%(sfx)s(); let buf = self.win_from_raw_parts(p__.add(\\1), \\2);
+//@subst /dbutils::leb128::encode_%(ty)s_varint_to\\(value, buf\\)/ => self.buf_encode_varint_%(ty)s(value, buf)
+//@subst? /self\\.capacity\\(\\)/ => self.capacity%(sfx)s()
+//@contract
+  requires old(self).inv(), %(nullreq)s
+  ensures
+    same_handle(*old(self), *final(self)) && final(self).inv(), // [C14]
+    final(self).only_touched(*old(self), old(self).len as int, old(self).cap()), // [C14]
+    r is Err <==> spec_venc_%(ty)s(value).len() > old(self).cap() - old(self).len, // [C14]
+    r is Err ==> final(self).len == old(self).len, // [C14]
+    r matches Ok(n) ==> n as int == spec_venc_%(ty)s(value).len() && final(self).len == old(self).len + n
+      && final(self).mem@.subrange(old(self).off() + old(self).len as int, old(self).off() + old(self).len as int + n as int) == spec_venc_%(ty)s(value), // [C14]
+//@before 1 /let p__ = /
+  proof { broadcast use axiom_venc_len_%(ty)s; }
+//@@end
+//@@fn file=bytes.rs src=expanded scope="%(scope)s" name=get_%(ty)s_varint rename=get_%(ty)s_varint%(sfx)s xlate=plain props=C14
+//@subst /dbutils::leb128::DecodeVarintError/ => DecodeErr
+//@subst /dbutils::leb128::decode_%(ty)s_varint\\(self\\)/ => decode_varint_%(ty)s(self.deref%(sfx)s())
+//@contract
+  requires self.inv(), %(nullreq_ro)s
+  ensures
+    r matches Ok(p) ==> 1 <= p.0 <= self.len, // [C14]
+    forall|v: %(ty)s| (#[trigger] spec_venc_%(ty)s(v)).len() <= self.len && self.mem@.subrange(self.off(), self.off() + spec_venc_%(ty)s(v).len()) == spec_venc_%(ty)s(v)
+      ==> r == Ok::<(usize, %(ty)s), DecodeErr>((spec_venc_%(ty)s(v).len() as usize, v)), // [C14]
+//@before 1 /decode_varint_/
+  proof {
+    broadcast use axiom_venc_len_%(ty)s;
+    assert forall|v: %(ty)s| (#[trigger] spec_venc_%(ty)s(v)).len() <= self.len && self.mem@.subrange(self.off(), self.off() + spec_venc_%(ty)s(v).len()) == spec_venc_%(ty)s(v)
+      implies self.mem@.subrange(self.off(), self.off() + self.len as int).subrange(0, spec_venc_%(ty)s(v).len() as int) == spec_venc_%(ty)s(v) by {
+      assert(self.mem@.subrange(self.off(), self.off() + self.len as int).subrange(0, spec_venc_%(ty)s(v).len() as int) =~= self.mem@.subrange(self.off(), self.off() + spec_venc_%(ty)s(v).len()));
+    }
+  }
+//@@end
+''' % d
+
+
+def _varint_roundtrip(sfx, ty):
+    return '''
+/// C14: a LEB128 put on an empty buffer followed by the matching varint get returns the encoded length and the value
+fn roundtrip_varint_%(ty)s%(sfx)s(b: &mut Buf, v: %(ty)s)
+  requires old(b).inv(), old(b).len == 0, old(b).null_arena ==> old(b).cap() == 0,
+{
+  match b.put_%(ty)s_varint%(sfx)s(v) {
+    Ok(n) => {
+      let r = b.get_%(ty)s_varint%(sfx)s();
+      assert(r == Ok::<(usize, %(ty)s), DecodeErr>((n, v))); // [C14]
+    }
+    Err(_) => {}
+  }
+}
+''' % dict(sfx=sfx, ty=ty)
+
 def handles():
     with open(os.path.join(UNITS, 'U_handles.head.rs')) as f:
         head = f.read()
     with open(os.path.join(UNITS, 'U_handles.fns.tpl')) as f:
         fns = f.read()
-    parts = [head, _conv_specs(), ALIGN_BLOCK, '\nimpl Buf {\n']
+    parts = [head, _conv_specs(), _varint_shims(), ALIGN_BLOCK, '\nimpl Buf {\n']
     rts = []
     for scope, sfx in ((REF_SCOPE, ''), (OWN_SCOPE, '__own')):
         for ty, sz in INTS:
             for o in ORDERS:
                 parts.append(_fixed_block(scope, sfx, ty, sz, o))
                 rts.append(_roundtrip(sfx, ty, sz, o))
+        for ty, _mx in VARINTS:
+            parts.append(_varint_block(scope, sfx, ty))
+            rts.append(_varint_roundtrip(sfx, ty))
         bufscope = "impl<A: Allocator> crate::Buffer for BytesRefMut<'_, A> {" if sfx == '' else 'impl<A: Allocator> crate::Buffer for BytesMut<A> {'
         parts.append(fns.replace('%SCOPE%', scope).replace('%BUFSCOPE%', bufscope).replace('%SFX%', sfx))
     parts.append('\n} // impl Buf\n')
